@@ -8,7 +8,10 @@ package main
 // (so `original` chains exist and an original and its rewrite coexist) and a destination
 // (v1/v2, own random chunker polynomial or `init --copy-chunker-params`, other password,
 // compression mode; empty / with an own backup that shares blobs / with an earlier partial
-// copy / both). `copy --from-repo SRC` (runCopy) is recorded on the destination: EVERY prefix
+// copy / both; plus, in two thirds of the cases, ORPHANED TREES: tree blobs (root and inner
+// trees, drawn) of the snapshots to copy stored and indexed in the destination without their
+// subtrees/data, either written directly or left by an earlier copy that died between its pack
+// uploads followed by `repair index`). `copy --from-repo SRC` (runCopy) is recorded on the destination: EVERY prefix
 // of the destination's Save/Remove log is rebuilt as a crash state. Then copy runs a second
 // time, and once more from a drawn crash state (resume after interruption).
 
@@ -19,6 +22,7 @@ import (
 	"path/filepath"
 	"sort"
 	"strings"
+	"sync"
 	"testing"
 
 	"github.com/restic/restic/internal/backend"
@@ -47,6 +51,7 @@ type vScenarioC32 struct {
 	Backups    int      `json:"backups"`
 	Mods       []string `json:"mods"`
 	Comp       string   `json:"dst_compression"`
+	Orphans    string   `json:"orphans"` // none | inject | crash-repair: tree blobs in the destination whose subtrees/data are missing
 }
 
 func vCopyC32(dst, src *vEnv, ctx context.Context, ids []string) (vOut, error) {
@@ -202,6 +207,108 @@ func vEvolveTreeC32(t *rapid.T, prev vTree) vTree {
 	return tr
 }
 
+// vTreeBlobC32 is one tree blob of a source snapshot (raw bytes as stored).
+type vTreeBlobC32 struct {
+	id   restic.ID
+	root bool
+	buf  []byte
+}
+
+// vSourceTreesC32 loads every tree blob (root and inner trees) of the given source snapshots.
+func vSourceTreesC32(src *vEnv, sns []*data.Snapshot) ([]vTreeBlobC32, error) {
+	var out []vTreeBlobC32
+	err := src.WithRepo(func(ctx context.Context, repo *repository.Repository) error {
+		if err := repo.LoadIndex(ctx, restic.NoopTerminalCounterFactory); err != nil {
+			return err
+		}
+		roots := map[restic.ID]bool{}
+		var rootIDs restic.IDs
+		for _, sn := range sns {
+			if !roots[*sn.Tree] {
+				roots[*sn.Tree] = true
+				rootIDs = append(rootIDs, *sn.Tree)
+			}
+		}
+		seen := map[restic.ID]bool{}
+		var ids restic.IDs
+		var mu sync.Mutex
+		err := data.StreamTrees(ctx, repo, rootIDs, restic.NoopCounter, func(id restic.ID) bool {
+			mu.Lock()
+			defer mu.Unlock()
+			v := seen[id]
+			seen[id] = true
+			return v
+		}, func(id restic.ID, err error, nodes data.TreeNodeIterator) error {
+			if err != nil {
+				return err
+			}
+			for item := range nodes {
+				if item.Error != nil {
+					return item.Error
+				}
+			}
+			mu.Lock()
+			ids = append(ids, id)
+			mu.Unlock()
+			return nil
+		})
+		if err != nil {
+			return err
+		}
+		sort.Slice(ids, func(i, j int) bool { return ids[i].String() < ids[j].String() })
+		for _, id := range ids {
+			buf, err := repo.LoadBlob(ctx, restic.BlobHandle{Type: restic.TreeBlob, ID: id}, nil)
+			if err != nil {
+				return err
+			}
+			out = append(out, vTreeBlobC32{id: id, root: roots[id], buf: buf})
+		}
+		return nil
+	})
+	return out, err
+}
+
+// vInjectTreesC32 stores tree blobs in the destination WITHOUT what they refer to (indexed,
+// unreferenced): the state an orphaned tree in a partly used pack after forget+prune leaves.
+func vInjectTreesC32(dst *vEnv, trees []vTreeBlobC32) (int, error) {
+	n := 0
+	err := dst.WithRepoRW(func(ctx context.Context, repo *repository.Repository) error {
+		if err := repo.LoadIndex(ctx, restic.NoopTerminalCounterFactory); err != nil {
+			return err
+		}
+		return repo.WithBlobUploader(ctx, func(ctx context.Context, up restic.BlobSaverWithAsync) error {
+			for _, tb := range trees {
+				_, known, _, err := up.SaveBlob(ctx, restic.TreeBlob, tb.buf, tb.id, false)
+				if err != nil {
+					return err
+				}
+				if !known {
+					n++
+				}
+			}
+			return nil
+		})
+	})
+	return n, err
+}
+
+// vKnownTreesC32 counts how many of the trees the destination index knows.
+func vKnownTreesC32(dst *vEnv, trees []vTreeBlobC32) (int, error) {
+	n := 0
+	err := dst.WithRepo(func(ctx context.Context, repo *repository.Repository) error {
+		if err := repo.LoadIndex(ctx, restic.NoopTerminalCounterFactory); err != nil {
+			return err
+		}
+		for _, tb := range trees {
+			if _, ok := repo.LookupBlobSize(restic.BlobHandle{Type: restic.TreeBlob, ID: tb.id}); ok {
+				n++
+			}
+		}
+		return nil
+	})
+	return n, err
+}
+
 func vPolynomialC32(e *vEnv) (string, uint, error) {
 	var pol string
 	var ver uint
@@ -222,6 +329,7 @@ func TestVerifC32Copy(t *testing.T) {
 			DstVersion: rapid.SampledFrom([]string{"1", "2", "2"}).Draw(t, "dstv"),
 			Chunker:    rapid.SampledFrom([]string{"own", "copied"}).Draw(t, "chunker"),
 			Prepop:     rapid.SampledFrom([]string{"empty", "own", "partial", "partial", "own+partial"}).Draw(t, "prepop"),
+			Orphans:    rapid.SampledFrom([]string{"inject", "crash-repair", "none", "crash-repair", "inject", "crash-repair", "none"}).Draw(t, "orphans"),
 		}
 		src, err := vNewEnv(true)
 		if err != nil {
@@ -421,6 +529,97 @@ func TestVerifC32Copy(t *testing.T) {
 				}
 			}
 		}
+		// ---- tree blobs of the snapshots to copy that are already in the destination while their
+		// subtrees / file contents are not: copy must not take "tree known" for "everything below known"
+		orphanClass := "none"
+		switch sc.Orphans {
+		case "inject":
+			trees, err := vSourceTreesC32(src, srcSns)
+			if err != nil || len(trees) == 0 {
+				fail("loading source trees: %v (%d trees)", err, len(trees))
+			}
+			n := rapid.IntRange(1, len(trees)).Draw(t, "norphans")
+			var pick []vTreeBlobC32
+			roots, inner := 0, 0
+			for _, i := range rapid.Permutation(vRange(len(trees))).Draw(t, "orphanperm")[:n] {
+				pick = append(pick, trees[i])
+				if trees[i].root {
+					roots++
+				} else {
+					inner++
+				}
+			}
+			stored, err := vInjectTreesC32(dst, pick)
+			if err != nil {
+				fail("storing %d orphan trees in the destination: %v", len(pick), err)
+			}
+			orphanClass = "inject"
+			if stored == 0 {
+				orphanClass = "inject-all-known"
+			}
+			st.Class(fmt.Sprintf("orphan-roots=%v", roots > 0), fmt.Sprintf("orphan-inner=%v", inner > 0))
+		case "crash-repair":
+			// the natural way there: an earlier copy died after it had uploaded some but not all
+			// packs (no index yet), and `repair index` was run on the destination afterwards
+			trees, err := vSourceTreesC32(src, srcSns)
+			if err != nil {
+				fail("loading source trees: %v", err)
+			}
+			knownBefore, err := vKnownTreesC32(dst, trees)
+			if err != nil {
+				fail("destination index: %v", err)
+			}
+			probe := dst.OnStore(dst.store.Clone())
+			probe.store.StartRecording(vbe.NoFaults())
+			pout, perr := vCopyC32(probe, src, context.Background(), nil)
+			plog := probe.store.StopRecording()
+			probe.Release()
+			if perr != nil {
+				fail("earlier copy (to be interrupted) failed: %v\n%s%s", perr, pout.Stdout, pout.Stderr)
+			}
+			total := 0
+			for _, op := range plog {
+				if op.Key.Type == backend.PackFile && !op.Remove {
+					total++
+				}
+			}
+			var cand []int
+			seenPacks := 0
+			for k, op := range plog {
+				if op.Key.Type == backend.PackFile && !op.Remove {
+					seenPacks++
+					if seenPacks < total {
+						cand = append(cand, k+1)
+					}
+				}
+			}
+			orphanClass = "crash-repair-single-pack"
+			if len(cand) > 0 {
+				k := cand[rapid.IntRange(0, len(cand)-1).Draw(t, "crashAt")]
+				crashed := probe.store.StateAt(k)
+				crashed.DropLocks()
+				dst.ReplaceStore(crashed)
+				if _, err := dst.call(dst.gopts, func(ctx context.Context, gopts global.Options) error {
+					return runRebuildIndex(ctx, RepairIndexOptions{}, gopts, gopts.Term)
+				}); err != nil {
+					fail("repair index on the destination after the interrupted copy: %v", err)
+				}
+				knownAfter, err := vKnownTreesC32(dst, trees)
+				if err != nil {
+					fail("destination index: %v", err)
+				}
+				orphanClass = "crash-repair-data-pack-first"
+				if knownAfter > knownBefore {
+					orphanClass = "crash-repair"
+				}
+			}
+		}
+		if sc.Orphans != "none" {
+			if out, err := dst.Check(true); err != nil {
+				fail("destination with orphaned trees (%s) before the copy: check: %v\n%s%s", orphanClass, err, out.Stdout, out.Stderr)
+			}
+		}
+
 		preSns, err := dst.Snapshots()
 		if err != nil {
 			fail("listing destination snapshots: %v", err)
@@ -594,7 +793,7 @@ func TestVerifC32Copy(t *testing.T) {
 		if shared && len(preSns) > 0 && expectNew > 0 {
 			key = vJSON(sc) + dst.store.Digest()[:16]
 		}
-		st.Case(key, "prepop="+sc.Prepop, "chunker="+sc.Chunker, "src=v"+sc.SrcVersion, "dst=v"+sc.DstVersion,
+		st.Case(key, "orphan-trees="+orphanClass, "prepop="+sc.Prepop, "chunker="+sc.Chunker, "src=v"+sc.SrcVersion, "dst=v"+sc.DstVersion,
 			fmt.Sprintf("original-chain=%v", chain), fmt.Sprintf("original-chain-with-parent=%v", chainParent),
 			fmt.Sprintf("shared-blobs=%v", shared), fmt.Sprintf("new-snapshots=%d", vMinC32(expectNew, 4)), fmt.Sprintf("packs-written=%d", vMinC32(packs, 3)))
 		for _, m := range sc.Mods {
@@ -658,4 +857,3 @@ func vOpsStringC32(log []vbe.Op) string {
 	return sb.String()
 }
 
-var _ = restic.ID{}
